@@ -369,9 +369,9 @@ def run_shard(spec):
 
 def check_floors(counters, evaluations, tier):
     msgs = []
-    for key, frac in (('case-variant-collision', 0.08),
-                      ('remove-then-reuse', 0.03),
-                      ('request-by-case-variant', 0.08)):
+    for key, frac in (('case-variant-collision', 0.06),
+                      ('remove-then-reuse', 0.02),
+                      ('request-by-case-variant', 0.06)):
         if counters.get(key, 0) < frac * evaluations:
             msgs.append("%s in only %d of %d cases" % (
                 key, counters.get(key, 0), evaluations))
